@@ -114,7 +114,7 @@ CHECKS = {
     ),
     "C20": dict(
         level="exploration",
-        text="A seeded register map from a restricted grammar (MemWord, MemUWord with defaults, Registers with MemField / MemUField at seeded bit offsets, a counter register with read / write notifications, nested RegFile, Array, holes, map sizes that are and are not powers of two) is connected through std.axi.axi4_light.connect_addr_map, compiled by the real compiler and driven in VSIM by a seeded AXI4-Lite master with independent per-channel decisions: AW before W, W before AW, same clock; ready early / late / toggling / permanently high; back-to-back and pipelined offers (next AW/W during the B phase); concurrent reads and writes; partial strobes; mapped, hole and out-of-map addresses. Checked every clock: protocol monitors (valid not withdrawn before ready, payload stable, one B per AW+W pair, one R per AR, no response without request, bounded response time while the master is ready, all traffic completes) and a register model (strobed bytes of exactly the addressed register, field kinds, reads return the model value, unmapped accesses change nothing, every access of the counter register counted exactly once).",
+        text="A seeded register map from a restricted grammar (MemWord, MemUWord with defaults, Registers with MemField / MemUField at seeded bit offsets, a counter register with read / write notifications, nested RegFile, Array, Memory blocks with all mask modes / unaligned access, AddrRange hooks, Input / Output registers with hardware-side signals, holes, map sizes that are and are not powers of two) is connected through std.axi.axi4_light.connect_addr_map (a quarter of the maps: 2-3 maps behind std.axi.axi4_light.interconnect, unmapped windows answered with DECERR), compiled by the real compiler and driven in VSIM by a seeded AXI4-Lite master with independent per-channel decisions: AW before W, W before AW, same clock; ready early / late / toggling / permanently high; back-to-back and pipelined offers (next AW/W during the B phase); concurrent reads and writes; partial strobes; mapped, hole and out-of-map addresses. Checked every clock: protocol monitors (valid not withdrawn before ready, payload stable, one B per AW+W pair, one R per AR, no response without request, bounded response time while the master is ready, all traffic completes) and a register model (strobed bytes of exactly the addressed register, field kinds, reads return the model value, unmapped accesses change nothing, every access of the counter register counted exactly once).",
         note="Trusted: VSIM, the master BFM (obeys the protocol itself), monitors, register model (a write takes effect with its B handshake; a read overlapping a write to the same address is not value-checked). Alias variables are simulated with plain VHDL semantics here; the C08 side of std.axi's latched address is a known C08 finding.",
         technique="deterministic simulation of emitted VHDL with a seeded AXI4-Lite master (per-channel delay / ready / pipelining schedules); protocol monitors + register reference model",
         ref="6/C20",
